@@ -1589,7 +1589,7 @@ class FakedWBEMConnection(WBEMConnection):
             DeepInheritance=params.get('DeepInheritance', None),
             LocalOnly=params.get('LocalOnly', None),
             IncludeQualifiers=params.get('IncludeQualifiers', None),
-            IncludeClassOrigin=params.get('IncludeClassOrigin, None)', None))
+            IncludeClassOrigin=params.get('IncludeClassOrigin', None))
         return self._make_tuple(classes)
 
     def _imeth_EnumerateClassNames(self, namespace, **params):
